@@ -25,21 +25,29 @@ from common import Check
 META = {
     "ready": True,
     "level": "proof",
-    "technique": "Lean 4 verified translation validator (certify_sound) + tensor-algebra theorems; every real "
-                 "pass application on generated graphs is validated by it; ORT before/after as search",
+    "technique": "Lean 4 verified translation validator (certify_sound) + tensor-algebra theorems + soundness theorems "
+                 "for executable models of the optimizer's guards; every real pass application on generated graphs is "
+                 "validated by the proven validator, guard models are tied by correspondence; ORT before/after as search",
     "level_text": "Kernel-checked: transpose_pair_cancels, transpose_commutes_pointwise (all ranks, perms, "
                   "arities, tensors), norm_sound, certify_sound (all graph pairs, all inputs, any operator "
-                  "interpretation). Each rewrite the real passes perform on the generated graphs must be "
-                  "accepted by the proven validator; anything it cannot justify is executed in ORT.",
+                  "interpretation satisfying Laws), cast_laws_of_C17, reduce_transpose_of_monoid; and for the "
+                  "optimizer's own guards (Props/C02Guards.lean): shapesCompatible_sound, reshape_pair_guard_sound, "
+                  "reshape_pair_across_unary, identityReshapeGuard_sound, inversePerm_guard_sound, "
+                  "chainSideOk_fold_sound, chainSideOk_castLike_sound (what the guard accepts satisfies the semantic "
+                  "precondition of the rewrite, all ranks / tensors / symbol bindings). Each rewrite the real passes "
+                  "perform on the generated graphs must be accepted by the proven validator; anything it cannot "
+                  "justify is executed in ORT.",
     "level_note": "Trusted: Lean kernel + 3 axioms; harness canonicalisation (termify.py); annotation soundness "
                   "of the input graph (hypothesis AnnotSound = property C08) ; ONNX operator facts assumed as "
                   "Laws (cast round trip = C17); tensors modelled as functions on index functions, validated "
-                  "against ORT. Reshape/Reduce/Swish/Dropout rewrites are not yet justified by rules: those "
-                  "pairs are decided by ORT execution (reported separately in the evidence).",
+                  "against ORT. Reshape facts (element count and row-major order are kept; commutes with unary "
+                  "pointwise ops and casts), Not(const) and the scalar Swish identity are assumed ONNX facts (fields "
+                  "of Laws); the cast and reduction fields are theorems. Guard models are tied to the live predicates "
+                  "and to the passes' fold/no-fold behaviour on minimal graphs (one-sided: code accepts => model accepts).",
     "design_ref": "DESIGN.md §3 C02",
 }
 
-MODS = ["J2O.Props.C02"]
+MODS = ["J2O.Props.C02", "J2O.Props.C02Guards"]
 
 
 def _opt():
@@ -292,6 +300,10 @@ def run(chk: Check) -> None:
     except Exception as e:  # noqa: BLE001
         chk.log(f"real-export stream unavailable: {type(e).__name__}: {e}")
     chk.info("real_exports", real_n)
+
+    # ---- guard kernels: the code's own predicates vs their Lean models (Props/C02Guards.lean) ----
+    import c02_guards
+    chk.info("guard_kernels", c02_guards.check(chk, rng))
 
     lines = [r for r in requests if r is not None]
     answers = iter(common.run_driver("C02", lines)) if lines else iter([])
